@@ -93,7 +93,18 @@ def paramsT (salt : Nat) (p : Pass) : Term := .pair (.rnd salt) (.hash (masterKe
 
 /-- the passphrase ends in a zero byte (hex token ends in "00"): snacl refuses to derive from it, because
     HMAC's zero padding would make it derive the key of the passphrase without those bytes -/
-def endsZero (p : Pass) : Bool := p.length % 2 == 0 && p.endsWith "00"
+def lastTwoZero : List Char → Bool
+  | [] => false
+  | [_] => false
+  | [a, b] => a == '0' && b == '0'
+  | _ :: rest => lastTwoZero rest
+
+def evenLen : List Char → Bool
+  | [] => true
+  | [_] => false
+  | _ :: _ :: r => evenLen r
+
+def endsZero (p : Pass) : Bool := evenLen p.toList && lastTwoZero p.toList
 
 /-- SecretKey.Unmarshal + DeriveKey: derive from the candidate passphrase, compare the digest -/
 def deriveKey (params : Term) (p : Pass) : Option Term :=
